@@ -194,7 +194,7 @@ func runCases(cases []Case, a *agg) error {
 	for i, c := range cases {
 		ids[i] = encode(c)
 	}
-	res, err := subproc.Run([]string{"c16worker"}, ids, 0)
+	res, err := subproc.Run([]string{"c16worker"}, ids, 0, workerEnv()...)
 	if err != nil {
 		return err
 	}
@@ -245,7 +245,7 @@ func runCases(cases []Case, a *agg) error {
 		for i, c := range bases {
 			ids[i] = encode(c)
 		}
-		res, err := subproc.Run([]string{"c16worker"}, ids, 0)
+		res, err := subproc.Run([]string{"c16worker"}, ids, 0, workerEnv()...)
 		if err != nil {
 			return err
 		}
@@ -314,6 +314,23 @@ var assumptions = []string{
 
 const rule = "a case = (simulator configuration, tracker history cut into rounds, near/far bit per round); it is non-trivial when its fault-free import stored at least one operation; distinct = distinct (canonical final bugs, set of request identities of the last round) among the non-trivial cases"
 
+var coordScratch string
+
+// workerEnv places the workers' scratch directories below the coordinator's, so that what a
+// worker that died leaves behind is removed with it.
+func workerEnv() []string {
+	if coordScratch == "" {
+		coordScratch = world.ScratchRoot()
+	}
+	return []string{"VERIF_SCRATCH=" + coordScratch}
+}
+
+func cleanup() {
+	if coordScratch != "" {
+		os.RemoveAll(coordScratch)
+	}
+}
+
 // Main is `harness C16`.
 func Main(args []string) {
 	fs := flag.NewFlagSet("C16", flag.ExitOnError)
@@ -323,7 +340,9 @@ func Main(args []string) {
 	budgetS := fs.Int("budget", 0, "override the internal deadline (seconds)")
 	fs.Parse(args)
 	if *replay != "" {
-		os.Exit(Replay(*replay))
+		rc := Replay(*replay)
+		cleanup()
+		os.Exit(rc)
 	}
 	tier := evidence.Tier()
 	rep := evidence.NewReporter("C16")
@@ -366,6 +385,7 @@ func Main(args []string) {
 			}
 			if err := runCases(cases[done:end], a); err != nil {
 				fmt.Fprintln(os.Stderr, "harness error:", err)
+				cleanup()
 				os.Exit(2)
 			}
 			done = end
@@ -408,9 +428,11 @@ func Main(args []string) {
 			}
 		}
 		if rep.Viol == 0 {
+			cleanup()
 			os.Exit(2)
 		}
 	}
+	cleanup()
 	rep.Exit()
 }
 
@@ -421,7 +443,7 @@ func reproductions(f *found, n int) int {
 	for i := range ids {
 		ids[i] = encode(f.c)
 	}
-	res, err := subproc.Run([]string{"c16worker"}, ids, n)
+	res, err := subproc.Run([]string{"c16worker"}, ids, n, workerEnv()...)
 	if err != nil {
 		return 0
 	}
@@ -466,7 +488,7 @@ func Replay(path string) int {
 		return 2
 	}
 	fmt.Println("case:", f.Replay.Case)
-	res, err := subproc.Run([]string{"c16worker"}, []string{encode(f.Replay.Case)}, 1)
+	res, err := subproc.Run([]string{"c16worker"}, []string{encode(f.Replay.Case)}, 1, workerEnv()...)
 	if err != nil {
 		fmt.Fprintln(os.Stderr, "replay error:", err)
 		return 2
